@@ -9,13 +9,18 @@ What these theorems carry is the *counting* and the *linear layer*:
   in particular the repaired real Cayley/exp chart is **not** constant;
 * the differentials of `exp` and of the Cayley transform at the base point are `id` and `-2·id`, and the model's order-1 Cayley chart is that map.
 
-**Not proved (named gap):** that the rank of the differential at a *generic* θ equals the rank at one point (real-analyticity), and the
-differentials of the normalising maps (quotient, softmax, Cholesky, polar, qr, Euler).  Stated as `generic_rank.Statement` for the exp chart; the
+* for the vector charts the differential is computed and its rank proved at **every** admissible point: quotient sphere (kernel = radial line,
+  rank `n-1` at every `θ ≠ 0`), softmax (kernel = constants, rank `n-1` everywhere), `to_ball` (injective differential everywhere, the origin included).
+
+**Not proved (named gap):** that the rank of the differential at a *generic* θ equals the rank at one point (real-analyticity) for the matrix
+charts, and the differentials of the matrix-valued normalising maps (Cholesky, polar, qr, Euler, cayley/exp away from 0).  Stated as `generic_rank.Statement` for the exp chart; the
 generic-point rank of every map is *searched* numerically by the probe of `harness/c02.py` (autograd Jacobian) and reported as such.
 -/
 import NumqiProofs.ManifoldCount
 import NumqiProofs.ManifoldPlacement
 import NumqiProofs.ManifoldDiff
+import NumqiProofs.ManifoldVecDiff
+import NumqiProofs.ManifoldSoftmaxDiff
 
 namespace Numqi.C02
 open Numqi Numqi.Manifold Numqi.Manifold.Count Matrix
@@ -99,6 +104,50 @@ theorem soCayley_eq_cayleyMap (inv : NMat ℂ → NMat ℂ)
   have := hinv _ (by rw [toM_one_add]; exact hu)
   rw [toM_one_add] at this
   rw [← Matrix.nonsing_inv_eq_ringInverse, ← Matrix.inv_eq_left_inv this]
+
+/-! ### vector charts: the differential and its rank at **every** admissible point -/
+
+/-- the model's `to_sphere_quotient` / `to_ball` (real) are `quotMap` / `ballMap` on `EuclideanSpace ℝ (Fin n)`, its softmax is `smax` -/
+theorem vector_maps_eq (n : Nat) (θ : Nat → ℝ) (i : Fin n) :
+    sphereQuotientVec n θ i.val = quotMap (toE n θ) i ∧ ballVec n θ i.val = ballMap (toE n θ) i :=
+  ⟨sphereQuotientVec_eq n θ i, ballVec_eq n θ i⟩
+theorem softmax_eq (n : Nat) [NeZero n] (θ : Nat → ℝ) (i : Fin n) :
+    softmaxVec n θ i.val = smax (fun j : Fin n => θ j.val) i := softmaxVec_eq_smax θ i
+
+/-- quotient sphere: differentiable at every `x ≠ 0` with differential `v ↦ v/‖x‖ - ⟨x,v⟩x/‖x‖³` … -/
+theorem sphere_quotient_hasFDerivAt (n : Nat) {x : EuclideanSpace ℝ (Fin n)} (hx : x ≠ 0) :
+    HasFDerivAt (quotMap : EuclideanSpace ℝ (Fin n) → EuclideanSpace ℝ (Fin n)) (quotD x) x := hasFDerivAt_quotMap hx
+/-- … whose kernel is the radial line `span {x}` … -/
+theorem sphere_quotient_ker (n : Nat) {x : EuclideanSpace ℝ (Fin n)} (hx : x ≠ 0) :
+    LinearMap.ker (quotD x : EuclideanSpace ℝ (Fin n) →ₗ[ℝ] EuclideanSpace ℝ (Fin n)) = Submodule.span ℝ {x} := ker_quotD hx
+/-- … so that **the rank is `n - 1`, the dimension of the sphere, at every `θ ≠ 0`** (a theorem, not a probe) -/
+theorem sphere_quotient_rank (n : Nat) {x : EuclideanSpace ℝ (Fin n)} (hx : x ≠ 0) :
+    Module.finrank ℝ (LinearMap.range (quotD x : EuclideanSpace ℝ (Fin n) →ₗ[ℝ] EuclideanSpace ℝ (Fin n))) + 1 = n := by
+  have := finrank_range_quotD hx
+  simpa using this
+
+/-- softmax: differential `v ↦ (s_i (v_i - Σ s_j v_j))_i` at every point … -/
+theorem softmax_hasFDerivAt (n : Nat) [NeZero n] (x : Fin n → ℝ) :
+    HasFDerivAt (smax : (Fin n → ℝ) → Fin n → ℝ) (smaxD x) x := hasFDerivAt_smax x
+/-- … kernel = constant vectors … -/
+theorem softmax_ker (n : Nat) [NeZero n] (x : Fin n → ℝ) :
+    LinearMap.ker (smaxD x : (Fin n → ℝ) →ₗ[ℝ] (Fin n → ℝ)) = Submodule.span ℝ {fun _ => (1 : ℝ)} := ker_smaxD x
+/-- … **rank `n - 1`, the dimension of the simplex, at every θ** -/
+theorem softmax_rank (n : Nat) [NeZero n] (x : Fin n → ℝ) :
+    Module.finrank ℝ (LinearMap.range (smaxD x : (Fin n → ℝ) →ₗ[ℝ] (Fin n → ℝ))) + 1 = n := finrank_range_smaxD x
+
+/-- `to_ball`: differentiable everywhere (the origin included), … -/
+theorem ball_hasFDerivAt (n : Nat) (x : EuclideanSpace ℝ (Fin n)) :
+    HasFDerivAt (ballMap : EuclideanSpace ℝ (Fin n) → EuclideanSpace ℝ (Fin n)) (if x = 0 then ContinuousLinearMap.id ℝ _ else ballD x) x := by
+  split_ifs with h
+  · subst h; exact hasFDerivAt_ballMap_zero
+  · exact hasFDerivAt_ballMap h
+/-- … **with injective differential, i.e. full rank `n`, at every θ** -/
+theorem ball_full_rank (n : Nat) (x : EuclideanSpace ℝ (Fin n)) :
+    Function.Injective (if x = 0 then ContinuousLinearMap.id ℝ (EuclideanSpace ℝ (Fin n)) else ballD x) := by
+  split_ifs with h
+  · exact fun a b hab => hab
+  · exact ballD_injective h
 
 /-! ### the gap, stated -/
 
